@@ -77,6 +77,10 @@ type Opts struct {
 	// AttrDefault, when not "", is the name of every attribute that is not taken from Attrs
 	// (makes the set of struct types occurring in a FillMax message independent of the seed).
 	AttrDefault kmip.AttributeName
+	// Sweep, when > 0, replaces the random draws of scalars by a deterministic walk of the
+	// boundary pools: the k-th scalar of a kind takes pool element (Sweep-1+k) mod len(pool), so
+	// Sweep = 1..SweepLen over one message shape puts every pool element in every position.
+	Sweep int
 	// EmptyType, when non-nil: in every struct of that type all optional parts (omitempty
 	// fields, pointers, slices, optional unions) are left empty, whatever Fill says.
 	EmptyType reflect.Type
@@ -111,6 +115,7 @@ type gen struct {
 	attrs []kmip.AttributeName
 	kinds []int
 	kfmt  kmip.KeyFormatType // key format of the key block being generated
+	cnt   map[string]int     // sweep counters per scalar kind
 }
 
 func newGen(r *h.Rand, ver kmip.ProtocolVersion, o Opts) *gen {
@@ -132,11 +137,94 @@ func (g *gen) present() bool {
 
 var datePool = []int64{0, 1, -1, 1000000000, 1700000000, 1<<31 - 1, 1 << 31, 1 << 32, -(1 << 31), 253402300799, 253402300800, 4102444800, -62135596800, -62135596801}
 
-func (g *gen) i32() int64 { return tv.GenLeaf(g.r, tv.KInt).I }
-func (g *gen) i64() int64 { return tv.GenLeaf(g.r, tv.KLong).I }
-func (g *gen) u32() int64 { return tv.GenLeaf(g.r, tv.KEnum).I }
+// The pools swept by Opts.Sweep (tv's pools, plus dates and big integers of our own).
+var (
+	poolI32  = tv.Int32Pool()
+	poolI64  = tv.Int64Pool()
+	poolU32  = tv.U32Pool()
+	poolText = tv.TextPool()
+	poolBig  = bigPool()
+)
+
+// SweepLen is the number of Sweep values that exhausts every pool but the big integers
+// (BigSweepLen for those).
+func SweepLen() int {
+	n := 0
+	for _, l := range []int{len(poolI32), len(poolI64), len(poolU32), len(poolText), len(datePool), 18} {
+		n = max(n, l)
+	}
+	return n
+}
+
+func BigSweepLen() int { return len(poolBig) }
+
+func bigPool() []*big.Int {
+	var out []*big.Int
+	out = append(out, big.NewInt(0))
+	for _, k := range []uint{0, 7, 8, 15, 16, 31, 32, 63, 64, 127, 128, 1023, 2047} {
+		p := new(big.Int).Lsh(big.NewInt(1), k)
+		for _, d := range []int64{-1, 0, 1} {
+			v := new(big.Int).Add(p, big.NewInt(d))
+			out = append(out, v, new(big.Int).Neg(v))
+		}
+	}
+	return out
+}
+
+// sweep returns the pool index of the next draw of kind k in sweep mode (ok=false: random mode).
+func (g *gen) sweep(k string, n int) (int, bool) {
+	if g.o.Sweep <= 0 || n == 0 {
+		return 0, false
+	}
+	if g.cnt == nil {
+		g.cnt = map[string]int{}
+	}
+	i := (g.o.Sweep - 1 + g.cnt[k]) % n
+	g.cnt[k]++
+	return i, true
+}
+
+func (g *gen) i32() int64 {
+	if i, ok := g.sweep("i32", len(poolI32)); ok {
+		return poolI32[i]
+	}
+	return tv.GenLeaf(g.r, tv.KInt).I
+}
+func (g *gen) i64() int64 {
+	if i, ok := g.sweep("i64", len(poolI64)); ok {
+		return poolI64[i]
+	}
+	return tv.GenLeaf(g.r, tv.KLong).I
+}
+func (g *gen) u32() int64 {
+	if i, ok := g.sweep("u32", len(poolU32)); ok {
+		return poolU32[i]
+	}
+	return tv.GenLeaf(g.r, tv.KEnum).I
+}
+func (g *gen) text() string {
+	if i, ok := g.sweep("text", len(poolText)); ok {
+		return poolText[i]
+	}
+	return string(tv.GenText(g.r))
+}
+func (g *gen) bytes() []byte {
+	if i, ok := g.sweep("bytes", 18); ok {
+		return g.r.Bytes(i) // every length 0..17: every residue mod 8, below / at / above 8 and 16
+	}
+	return tv.GenBytes(g.r)
+}
+func (g *gen) big() *big.Int {
+	if i, ok := g.sweep("big", len(poolBig)); ok {
+		return new(big.Int).Set(poolBig[i])
+	}
+	return tv.GenBig(g.r)
+}
 
 func (g *gen) date() time.Time {
+	if i, ok := g.sweep("date", len(datePool)); ok {
+		return time.Unix(datePool[i], 0)
+	}
 	if g.r.Chance(1, 5) {
 		return time.Unix(g.i64(), 0)
 	}
@@ -174,6 +262,9 @@ func EnumValues(tag int) []uint32 { registry(); return regEnums[tag] }
 func (g *gen) enum(t reflect.Type) uint64 {
 	registry()
 	vals := regEnums[ttlv.VerifTagForType(t)]
+	if i, ok := g.sweep("enum:"+t.String(), len(vals)); ok {
+		return uint64(vals[i])
+	}
 	if len(vals) > 0 && (g.o.RegisteredEnums || g.r.Chance(3, 4)) {
 		return uint64(vals[g.r.Intn(len(vals))])
 	}
@@ -226,7 +317,7 @@ func (g *gen) scalar(v reflect.Value) {
 		v.Set(reflect.ValueOf(g.date()))
 		return
 	case t == tBigInt:
-		v.Set(reflect.ValueOf(*tv.GenBig(g.r)))
+		v.Set(reflect.ValueOf(*g.big()))
 		return
 	case t == attrNameType:
 		v.SetString(string(g.randomAttrName()))
@@ -250,9 +341,9 @@ func (g *gen) scalar(v reflect.Value) {
 	case reflect.Bool:
 		v.SetBool(g.r.Bool())
 	case reflect.String:
-		v.SetString(string(tv.GenText(g.r)))
+		v.SetString(g.text())
 	case reflect.Slice: // []byte
-		v.SetBytes(tv.GenBytes(g.r))
+		v.SetBytes(g.bytes())
 	default:
 		// uint64 is decodable but the encoder panics on it: not carried
 		panic(fmt.Errorf("gv: no generator for scalar type %s (kind %s)", t, t.Kind()))
@@ -356,7 +447,8 @@ func (g *gen) fill(v reflect.Value, tag int, req bool) {
 		v.Set(reflect.ValueOf(g.treeStruct()))
 		return
 	case ScalarKind(t) != "":
-		if req || g.o.Fill == FillMax {
+		// (a pool sweep also puts the zero values of the pools in required fields)
+		if req || (g.o.Fill == FillMax && g.o.Sweep == 0) {
 			g.nonZeroScalar(v)
 		} else {
 			g.scalar(v)
